@@ -540,6 +540,16 @@ func ruleMapCloseOut(c *Ctx, r *R) {
 					if bi, ok := x.Call.Value.(*ssa.Builtin); ok && bi.Name() == "close" && loadCell(x.Call.Args[0]) == mapChansOf(c, root).work && mapChansOf(c, root).work != nil && b == g.Blocks[0] {
 						okIn = true
 					}
+					// a deferred function literal whose first block closes the work channel
+					if f := staticCallee(&x.Call); f != nil && f.Blocks != nil && f.Parent() != nil && b == g.Blocks[0] && mapChansOf(c, root).work != nil {
+						for _, y := range f.Blocks[0].Instrs {
+							if call, ok := y.(*ssa.Call); ok {
+								if bi, ok := call.Call.Value.(*ssa.Builtin); ok && bi.Name() == "close" && loadCell(call.Call.Args[0]) == mapChansOf(c, root).work {
+									okIn = true
+								}
+							}
+						}
+					}
 				case *ssa.Call:
 					if bi, ok := x.Call.Value.(*ssa.Builtin); ok && bi.Name() == "close" && loadCell(x.Call.Args[0]) == mapChansOf(c, root).work && mapChansOf(c, root).work != nil && root == "parallel.MapIterator" {
 						// every return of the dispatcher must be preceded by it: single return after the loop
